@@ -164,7 +164,7 @@ PLANS = {
         "assumptions": ["lemon NetworkSimplex is exact (cross-checked by brute force for tiny sizes)", "integer costs below 2^29/nbSinks"],
         "runs": [R("h_transp", "asan", "c13.random", 100000, 400000), R("h_transp", "fast", "c13.exhaustive2", 1521, 1521, exhaustive=True),
                  R("h_transp", "fast", "c13.exhaustive3", 0, 1521, exhaustive=True), R("h_transp", "fast", "c13.random", 0, 600000),
-                 R("h_transp", "fast", "c13.cascade", 2000000, 10000000), R("h_transp", "asan", "c13.cascade", 50000, 300000),
+                 R("h_transp", "fast", "c13.cascade", 4000000, 12000000), R("h_transp", "asan", "c13.cascade", 50000, 300000),
                  R("h_transp", "fast", "c13.nearfull", 100000, 1000000), R("h_transp", "asan", "c13.nearfull", 20000, 100000)],
     },
     "C14": {
